@@ -1,4 +1,4 @@
-(* driver.ml — runs the extracted Gallina model (model.ml) on cases read from stdin.
+(* drv.ml — core of the driver: runs the extracted Gallina model (model.ml) on cases read from stdin.
 
    Protocol (one line each way, S-expressions):
      value ::= x<hex> | n<decimal> | s<identifier> | ( value* )
@@ -180,122 +180,7 @@ let of_result (f : 'a -> sexp) (r : 'a result) : sexp =
   | Err e -> L [Sy "err"; Sy (err_name e)]
   | Panic site -> L [Sy "panic"; X (string_of_chars site)]
 
-(* ---------- operations ---------- *)
 
-let op_pae args =
-  match args with
-  | [ps] ->
-      let pieces = List.map (fun p -> List.map as_bytes (as_list p)) (as_list ps) in
-      L [ of_bytes (pae pieces); L (List.map of_bytes (pae_writes pieces)) ]
-  | _ -> failwith "pae: arity"
-
-let op_pae_spec args =
-  match args with
-  | [ps] -> of_bytes (pae_spec (List.map as_bytes (as_list ps)))
-  | _ -> failwith "pae_spec: arity"
-
-let op_unpae args =
-  match args with
-  | [s] ->
-      of_option (fun (ps, rest) -> L [ L (List.map of_bytes ps); of_bytes rest ]) (unpae (as_bytes s))
-  | _ -> failwith "unpae: arity"
-
-let op_b64enc = function [b] -> of_bytes (encode (as_bytes b)) | _ -> failwith "b64enc: arity"
-let op_b64dec = function [s] -> of_result of_bytes (decode_vec (as_bytes s)) | _ -> failwith "b64dec: arity"
-let op_b64dec_fixed = function
-  | [cap; s] -> of_result of_bytes (decode_fixed (nat_of_int (as_int cap)) (as_bytes s))
-  | _ -> failwith "b64dec_fixed: arity"
-let op_print_paserk = function
-  | [v; k; d] -> of_bytes (print_paserk (as_bytes v) (as_bytes k) (as_bytes d))
-  | _ -> failwith "print_paserk: arity"
-let op_parse_paserk = function
-  | [v; k; s] -> of_result of_bytes (parse_paserk (as_bytes v) (as_bytes k) (as_bytes s))
-  | _ -> failwith "parse_paserk: arity"
-let op_parse_keyid = function
-  | [v; k; s] -> of_result of_bytes (parse_keyid (as_bytes v) (as_bytes k) (as_bytes s))
-  | _ -> failwith "parse_keyid: arity"
-let of_token t = L [of_bytes t.t_payload; of_bytes t.t_footer]
-let op_print_token = function
-  | [h; sfx; p; pl; f] ->
-      of_bytes (print_token (as_bytes h) (as_bytes sfx) (as_bytes p) { t_payload = as_bytes pl; t_footer = as_bytes f })
-  | _ -> failwith "print_token: arity"
-(* footer type: svec | sunit *)
-let op_parse_token = function
-  | [ft; h; sfx; p; s] ->
-      (match as_sym ft with
-       | "vec" -> of_result (fun (t, _) -> of_token t) (parse_token fdec_vec (as_bytes h) (as_bytes sfx) (as_bytes p) (as_bytes s))
-       | "unit" -> of_result (fun (t, _) -> of_token t) (parse_token fdec_unit (as_bytes h) (as_bytes sfx) (as_bytes p) (as_bytes s))
-       | _ -> failwith "parse_token: footer type")
-  | _ -> failwith "parse_token: arity"
-
-(* validators *)
-let as_opt f = function Sy "none" -> None | L [Sy "some"; v] -> Some (f v) | _ -> failwith "expected option"
-let as_claims = function
-  | L [i; s; a; e; n; t; j] ->
-      { iss = as_opt as_bytes i; sub0 = as_opt as_bytes s; aud = as_opt as_bytes a;
-        exp = as_opt as_z e; nbf = as_opt as_z n; iat = as_opt as_z t; jti = as_opt as_bytes j }
-  | _ -> failwith "claims"
-let rec as_validator (v : sexp) : validator =
-  match v with
-  | L [Sy "time"; n] -> VTime (as_z n)
-  | L [Sy "leeway"; n; l] -> VTimeLeeway (as_z n, as_z l)
-  | L [Sy "hasexp"] -> VHasExpiry
-  | L [Sy "sub"; s] -> VForSubject (as_bytes s)
-  | L [Sy "iss"; s] -> VFromIssuer (as_bytes s)
-  | L [Sy "aud"; s] -> VForAudience (as_bytes s)
-  | L [Sy "none"] -> VNoValidation
-  | L [Sy "and"; a; b] -> VAndThen (as_validator a, as_validator b)
-  | L (Sy "slice" :: l) -> VSlice (List.map as_validator l)
-  | L (Sy "vec" :: l) -> VVec (List.map as_validator l)
-  | L [Sy "box"; a] -> VBox (as_validator a)
-  | L [Sy "rc"; a] -> VRc (as_validator a)
-  | L [Sy "arc"; a] -> VArc (as_validator a)
-  | L [Sy "map"; k; a] -> VMap (nat_of_int (as_int k), as_validator a)
-  | _ -> failwith "validator"
-let op_validate = function
-  | [v; c] -> of_result (fun () -> Sy "unit") (validate (as_validator v) (as_claims c))
-  | _ -> failwith "validate: arity"
-let op_ts_range = function _ -> L [Nn (dec_of_z ts_min); Nn (dec_of_z ts_max)]
-
-let ops : (ostring * (sexp list -> sexp)) list ref = ref [
-  "validate", op_validate;
-  "ts_range", op_ts_range;
-  "b64enc", op_b64enc;
-  "b64dec", op_b64dec;
-  "b64dec_fixed", op_b64dec_fixed;
-  "print_paserk", op_print_paserk;
-  "parse_paserk", op_parse_paserk;
-  "parse_keyid", op_parse_keyid;
-  "print_token", op_print_token;
-  "parse_token", op_parse_token;
-  "pae", op_pae;
-  "pae_spec", op_pae_spec;
-  "unpae", op_unpae;
-]
-
+(* ---------- op registry (ops_*.ml files register at load time) ---------- *)
+let ops : (ostring * (sexp list -> sexp)) list ref = ref []
 let register name f = ops := (name, f) :: !ops
-
-let main () =
-  try
-    while true do
-      let line = input_line stdin in
-      if String.length line > 0 then begin
-        let res =
-          try
-            match parse_sexp line with
-            | L (Sy name :: args) ->
-                (match List.assoc_opt name !ops with
-                 | Some f -> f args
-                 | None -> L [Sy "driver-error"; Sy ("unknown-op:" ^ name)])
-            | _ -> L [Sy "driver-error"; Sy "bad-case"]
-          with
-          | Failure m -> L [Sy "driver-error"; X m]
-          | Stack_overflow -> L [Sy "driver-error"; Sy "stack-overflow"]
-        in
-        print_string "RESULT ";
-        print_string (sexp_to_string res);
-        print_newline ()
-      end
-    done
-  with End_of_file -> ()
-let () = main ()
